@@ -41,8 +41,23 @@ type childSpec struct {
 	Fail        []string `json:"fail"`
 	CrashAt     int      `json:"crashAt"`    // k-th hook point (1-based); 0 = never
 	CrashPhase  string   `json:"crashPhase"` // load | run
+	CrashHook   string   `json:"crashHook"`  // alternatively: the first hit of this hook point for CrashLabel in CrashPhase
+	CrashLabel  string   `json:"crashLabel"`
 	PreferIndex bool     `json:"preferIndex"`
+	Runs        []RunOpt `json:"runs"` // op multirun: several Runs on ONE loaded project
 }
+
+// RunOpt: the options of one Run; Nil = a nil *RunOptions
+type RunOpt struct {
+	Nil    bool `json:"nil,omitempty"`
+	Always bool `json:"always,omitempty"`
+	Dry    bool `json:"dry,omitempty"`
+}
+
+var (
+	succM     sync.Mutex
+	succeeded []string
+)
 
 type ctlFiles struct {
 	m     sync.Mutex
@@ -84,10 +99,14 @@ func (c *ctlFiles) hook(name string, arg any) {
 	defer c.m.Unlock()
 	short, ok := hookShort[name]
 	if !ok {
-		short = name
+		return // a hook point of another area (loader, cache): not a persistent-effect boundary of the engine
 	}
 	l, _ := arg.(string)
 	c.appendLine("trace.log", c.phase+"\t"+short+"\t"+l)
+	if c.spec.CrashHook != "" && c.phase == c.spec.CrashPhase && short == c.spec.CrashHook && l == c.spec.CrashLabel {
+		c.appendLine("trace.log", "CRASH")
+		os.Exit(exitCrash)
+	}
 	if c.spec.CrashAt > 0 && c.phase == c.spec.CrashPhase {
 		c.hits++
 		if c.hits == c.spec.CrashAt {
@@ -129,7 +148,12 @@ func (childEvents) TargetEvaluating(l *label.Label, reason string, d diff.ValueD
 func (childEvents) TargetFailed(l *label.Label, err error) {
 	ctl.appendLine("events.log", "F\t"+lbl(l)+"\t"+strings.ReplaceAll(err.Error(), "\n", " "))
 }
-func (childEvents) TargetSucceeded(l *label.Label, changed bool) { ctl.appendLine("events.log", "S\t"+lbl(l)) }
+func (childEvents) TargetSucceeded(l *label.Label, changed bool) {
+	succM.Lock()
+	succeeded = append(succeeded, lbl(l))
+	succM.Unlock()
+	ctl.appendLine("events.log", "S\t"+lbl(l))
+}
 func (childEvents) RunDone(err error)                            { ctl.appendLine("events.log", "R\t"+errStr(err)) }
 func (childEvents) FileChanged(l *label.Label)                   {}
 
@@ -241,6 +265,9 @@ var vbModule = &starlarkstruct.Module{
 
 // hashDir is a digest of every file under dir (relative path, mode bits that matter, bytes), skipping `skip`.
 func hashDir(dir string, skip string) string {
+	if real, err := filepath.EvalSymlinks(dir); err == nil {
+		dir = real // the root may be a symbolic link
+	}
 	h := sha256.New()
 	var paths []string
 	filepath.Walk(dir, func(p string, info os.FileInfo, err error) error {
@@ -320,6 +347,37 @@ func childMain(specPath string) int {
 		if err := proj.GC(); err != nil {
 			ctl.appendLine("events.log", "GE\t"+err.Error())
 			return exitGCFail
+		}
+		return exitOK
+	case "multirun":
+		l, err := label.Parse(spec.Target)
+		if err != nil {
+			return exitUsage
+		}
+		for i, ro := range spec.Runs {
+			ctl.appendLine("events.log", fmt.Sprintf("RUN\t%d", i))
+			ctl.appendLine("exec.log", fmt.Sprintf("RUN\t%d", i))
+			succM.Lock()
+			succeeded = nil
+			succM.Unlock()
+			var opts *dawn.RunOptions
+			if !ro.Nil {
+				opts = &dawn.RunOptions{Always: ro.Always, DryRun: ro.Dry}
+			}
+			ctl.phase = "run"
+			err := proj.Run(l, opts)
+			ctl.appendLine("events.log", "RR\t"+errStr(err))
+			succM.Lock()
+			ss := append([]string{}, succeeded...)
+			succM.Unlock()
+			for _, sl := range ss {
+				stamp, rerun, ok := dawn.VerifRecord(proj, sl)
+				good := "bad"
+				if ok && !rerun && stamp != "" {
+					good = "good"
+				}
+				ctl.appendLine("events.log", "REC\t"+sl+"\t"+good)
+			}
 		}
 		return exitOK
 	case "build":
